@@ -26,6 +26,7 @@ func SmallSpecs() []*Spec {
 		Distributed("2001:db8::/126", 128, false, 0),
 		Distributed("10.0.0.0/29", 32, true, 1),
 		Distributed("10.0.0.0/29", 32, true, 2),
+		Distributed("10.0.0.64/27", 30, true, 1), // lease mode over /30 units: slot index != address offset
 		DistributedMAC("10.0.0.0/29", 32, false, 0),
 		DistributedMAC("10.0.0.0/29", 32, true, 1),
 		PoolAlloc("10.0.0.0/29", 32),
@@ -98,6 +99,7 @@ func ScaleSpecs() []*Spec {
 		Epoch("10.8.0.0/21", 32, 1),
 		Epoch("10.8.0.0/21", 32, 2),
 		Epoch("10.8.0.0/20", 32, 1),
+		Epoch("10.8.0.0/20", 30, 1),
 		Bitmap("10.8.0.0/22", 32),
 		Bitmap("2001:db8::/52", 64),
 		Distributed("10.8.0.0/22", 32, true, 1),
@@ -105,6 +107,8 @@ func ScaleSpecs() []*Spec {
 		Distributed("10.8.0.0/23", 32, false, 0),
 		PoolAlloc("10.8.0.0/23", 32),
 		DHCP4("10.8.0.0/22", "10.8.0.1", 0, 0),
+		DHCP4("10.8.4.0/22", "10.8.7.254", 0, 0), // gateway beyond the first 256 addresses
+		DHCP4("10.8.8.0/23", "10.8.9.1", 3, 2),
 		DHCP6PD("2001:db8::/46", 56),
 		PPPoE("10.8.0.0/23", "10.8.0.1"),
 		Peer("10.8.0.0/23", "10.8.0.1"),
